@@ -30,6 +30,13 @@ def shards(tier, seed):
 SERIALS = sorted({0, 1, 0xF, 0x10, 0xABC, 0xABCD, 0xABCDE, 0xABCDEF, 0xABCDEF0, 0x0FFFFFFF, 0x10000000, 0x80000000, 0xFFFFFFFF, 0x00000A0B, 0x0F000000, 0xDEADBEEF})
 
 
+def _names_unique(c16, want):
+    """Several vendor / product-type ids may carry one name: encoding such a name may pick any of them (the round trip still closes), so the
+    encoded bytes are compared with the device's only when the names are unambiguous."""
+    ven, pt = c16.tables()
+    return sum(1 for v in ven.values() if v == want["vendor"]) == 1 and sum(1 for v in pt.values() if v == want["product_type"]) == 1
+
+
 def run_identity(rep, tier):
     """Identity objects: decode(encode(v)) == v for the module identity (the one the library encodes), and both identity decoders
     consume exactly their bytes.  Values: every field of the reference identity swept on its own (C16's sweeps) and serial numbers
@@ -60,7 +67,7 @@ def run_identity(rep, tier):
                     prob = ("roundtrip", f"ModuleIdentityObject.decode(encode(v)) = {back!r:.160} for v = {want!r:.160}")
                 elif st.read() != b"TAIL":
                     prob = ("stream", f"ModuleIdentityObject.decode left the stream at the wrong place after {want!r:.100}")
-                elif bytes(enc[1]) != W.identity_body(idn):
+                elif bytes(enc[1]) != W.identity_body(idn) and _names_unique(c16, want):
                     prob = ("bytes", f"ModuleIdentityObject.encode({want!r:.100}) = {bytes(enc[1]).hex()}, identity object bytes are {W.identity_body(idn).hex()}")
         if prob is None:
             li = W.list_identity_item(idn)[2:]
